@@ -1005,22 +1005,33 @@ def quic_rogue_flights():
         "ee_unknown_extension_then_finished": lambda a: [a.ee(extra=[(0xABCD, b"x")]), a.make("FIN")],
         "ee_then_finished": lambda a: [a.make("EE"), a.make("FIN")],
         "cv_other_key": lambda a: [a.make("EE"), a.make("CERT"), a.make("CV", key="spare"), a.make("FIN")],
+        # a complete, internally consistent flight - by a server whose certificate the client must not accept
+        # (self-signed / issued for another name): possession of the key is proved, the identity is not
+        "selfsigned_chain": lambda a: [a.make("EE"), a.make("CERT"), a.make("CV"), a.make("FIN")],
+        "wrongname_chain": lambda a: [a.make("EE"), a.make("CERT"), a.make("CV"), a.make("FIN")],
     }
+    chains = {"selfsigned_chain": "selfsigned", "wrongname_chain": "wrongname"}
     for case, build in flights.items():
         for version in (1, 2):
-            a = Q.QuicServerAdversary(cfg={"version": VER[version]})
-            a.legal("SH")
-            n = 4 if case in ("valid_control", "cv_other_key") else 2
-            for i in range(n):
-                if a.victim.closing:
-                    break
-                raw = build(a)[i]      # built over the transcript accepted so far
-                a.send_tls("handshake", raw)
-                if not a.victim.closing:
-                    a.accepted(raw)
-            a.victim.drive_to_end(max_timers=3)
-            out.append(("%s/v%d" % (case, version), a.victim.handshake_completed,
-                        a.victim.terminated.error_code if a.victim.terminated else None))
+            for burst in (False, True):
+                # burst: the whole flight is received back-to-back before the caller transmits anything (a
+                # refusal only marks the connection for closing; later datagrams still reach the TLS engine)
+                a = Q.QuicServerAdversary(cfg={"version": VER[version]}, chain=chains.get(case, "ed25519"))
+                a.legal("SH")
+                a.victim.hold = burst
+                n = 4 if case in ("valid_control", "cv_other_key", "selfsigned_chain", "wrongname_chain") else 2
+                for i in range(n):
+                    if a.victim.closing:
+                        break
+                    raw = build(a)[i]      # built over the transcript accepted so far
+                    a.send_tls("handshake", raw, separate=burst)
+                    if burst or not a.victim.closing:
+                        a.accepted(raw)
+                a.victim.hold = False
+                a.victim.pump()
+                a.victim.drive_to_end(max_timers=3)
+                out.append(("%s%s/v%d" % (case, "+burst" if burst else "", version), a.victim.handshake_completed,
+                            a.victim.terminated.error_code if a.victim.terminated else None))
     return out
 
 
@@ -1051,19 +1062,23 @@ def quic_cid_authentication():
     }
     for case, tp in server_cases.items():
         for version in (1, 2):
-            a = Q.QuicServerAdversary(cfg={"version": VER[version]})
-            a.legal("SH")
-            builders = [lambda: a.ee(tp_items=tp(a)), lambda: a.make("CERT"), lambda: a.make("CV"), lambda: a.make("FIN")]
-            for b in builders:
-                if a.victim.closing:
-                    break
-                raw = b()
-                a.send_tls("handshake", raw)
-                if not a.victim.closing:
-                    a.accepted(raw)
-            a.victim.drive_to_end(max_timers=3)
-            out.append(("client/%s/v%d" % (case, version), a.victim.handshake_completed,
-                        a.victim.terminated.error_code if a.victim.terminated else None))
+            for burst in (False, True):
+                a = Q.QuicServerAdversary(cfg={"version": VER[version]})
+                a.legal("SH")
+                a.victim.hold = burst
+                builders = [lambda: a.ee(tp_items=tp(a)), lambda: a.make("CERT"), lambda: a.make("CV"), lambda: a.make("FIN")]
+                for b in builders:
+                    if a.victim.closing:
+                        break
+                    raw = b()
+                    a.send_tls("handshake", raw, separate=burst)
+                    if burst or not a.victim.closing:
+                        a.accepted(raw)
+                a.victim.hold = False
+                a.victim.pump()
+                a.victim.drive_to_end(max_timers=3)
+                out.append(("client/%s%s/v%d" % (case, "+burst" if burst else "", version), a.victim.handshake_completed,
+                            a.victim.terminated.error_code if a.victim.terminated else None))
     client_cases = {
         "valid_control": lambda a: a.tp,
         "iscid_mismatch": lambda a: Q.tp_replace(a.tp, Q.TP_ISCID, bytes(8)),
@@ -1334,7 +1349,7 @@ def part_auth(ctx, workers):
         role, name, _ = case.split("/")
         o = ("quic_cid_auth", role, name, done, None if code is None else int(code))
         outcomes[o] = outcomes.get(o, 0) + 1
-        if name == "valid_control":
+        if name.split("+")[0] == "valid_control":
             if not done:
                 raise core.HarnessError("quicadv cannot complete a valid handshake (%s)" % case)
         elif done:
